@@ -798,7 +798,9 @@ pub fn alphabet() -> Vec<OpInst> {
         for sel in 0..3 {
             add("map1", vec![a.clone()], sel);
         }
-        for b in slots.iter().chain([lit(MV::Sym("a"))].iter()) {
+        // values: every slot, and literal scalars of each immediate kind (a literal operand is not a reference to an
+        // existing cell, so the mutators take a different path for it)
+        for b in slots.iter().chain([lit(MV::Sym("a")), lit(MV::I(1)), lit(MV::B(true)), lit(MV::Ch('x'))].iter()) {
             add("set-car!", vec![a.clone(), b.clone()], 0);
             add("set-cdr!", vec![a.clone(), b.clone()], 0);
             add("vector-fill!", vec![a.clone(), b.clone()], 0);
@@ -822,7 +824,7 @@ pub fn alphabet() -> Vec<OpInst> {
         add("vector-ref", vec![a.clone(), lit(big())], 0);
         add("vector-copy", vec![a.clone(), lit(big())], 0);
         for k in [-1i64, 0, 1, 2, 3] {
-            for val in [Arg::Slot(0), Arg::Slot(1), lit(MV::Sym("a"))] {
+            for val in [Arg::Slot(0), Arg::Slot(1), lit(MV::Sym("a")), lit(MV::I(1)), lit(MV::Ch('x'))] {
                 add("vector-set!", vec![a.clone(), lit(MV::I(k)), val], 0);
             }
         }
@@ -920,6 +922,23 @@ pub fn initial_pools() -> Vec<MS> {
             let v1 = s.alloc(MO::Vector(vec![l1, MV::Ch('x')]));
             let v2 = s.alloc(MO::Vector(vec![l2, MV::Ch('x')]));
             s.slots = [i1, i2, v1, v2];
+        }),
+        mk(&|s| {
+            // improper lists ending in separately allocated equal vectors
+            let v1 = s.alloc(MO::Vector(vec![MV::Sym("a")]));
+            let v2 = s.alloc(MO::Vector(vec![MV::Sym("a")]));
+            let i1 = s.alloc(MO::Pair(MV::I(0), v1));
+            let i2 = s.alloc(MO::Pair(MV::I(0), v2));
+            s.slots = [i1, i2, MV::I(0), MV::Nil];
+        }),
+        mk(&|s| {
+            // two pairs sharing their tail, with separately allocated equal cars
+            let t = s.mk_list(&[MV::Sym("a")], MV::Nil);
+            let a1 = s.mk_list(&[MV::I(0)], MV::Nil);
+            let a2 = s.mk_list(&[MV::I(0)], MV::Nil);
+            let c1 = s.alloc(MO::Pair(a1, t.clone()));
+            let c2 = s.alloc(MO::Pair(a2, t.clone()));
+            s.slots = [c1, c2, t, MV::I(0)];
         }),
         mk(&|s| {
             let shared = s.mk_list(&[MV::I(0)], MV::Nil);
@@ -1254,7 +1273,7 @@ pub fn run(ctx: &Ctx) -> i32 {
     rep.extra("operation_instances_in_alphabet", json!(ops.len()));
     rep.extra("state_cap_hit", json!(cap_hit));
     rep.rule = format!(
-        "Breadth-first search to depth {} from 7 initial pools over a reference store model: 4 named slots holding scalars (0 1 a #t () #\\x, small integers) or references into a store of pairs and vectors (spine <= 3, vector length <= 3, <= 8 objects, acyclic), canonicalised by renaming locations in first-visit order and dropping unreachable objects (sound because the language cannot observe addresses). Alphabet: {} operation instances over the slots (cons car cdr set-car! set-cdr! list length append reverse list-tail list-ref memq memv member assq assv assoc map (3 procedures, 1 and 2 lists) for-each (1 and 2 lists) list? vector make-vector vector-length vector-ref vector-set! vector-fill! vector->list list->vector vector-copy (with start) vector-copy! (at, start, end incl. overlapping) equal? and moves), indices from -1..len+1 and 2^62; an instance is enabled only where R7RS fixes the outcome. Every transition is executed on the real VM: the state is built from its canonical form, the operation applied, and the result (value vs required error) and the whole pool afterwards compared with the model: contents by value, identity by writing a marker through each object in turn and comparing which paths show it. Shortest paths of a sub-set of states are replayed from the initial pool in a fresh VM (state reached by operations = state built directly). Non-trivial = a transition whose outcome and full pool observation agreed.",
+        "Breadth-first search to depth {} from 9 initial pools over a reference store model: 4 named slots holding scalars (0 1 a #t () #\\x, small integers) or references into a store of pairs and vectors (spine <= 3, vector length <= 3, <= 8 objects, acyclic), canonicalised by renaming locations in first-visit order and dropping unreachable objects (sound because the language cannot observe addresses). Alphabet: {} operation instances over the slots (cons car cdr set-car! set-cdr! list length append reverse list-tail list-ref memq memv member assq assv assoc map (3 procedures, 1 and 2 lists) for-each (1 and 2 lists) list? vector make-vector vector-length vector-ref vector-set! vector-fill! vector->list list->vector vector-copy (with start) vector-copy! (at, start, end incl. overlapping) equal? and moves), indices from -1..len+1 and 2^62; an instance is enabled only where R7RS fixes the outcome. Every transition is executed on the real VM: the state is built from its canonical form, the operation applied, and the result (value vs required error) and the whole pool afterwards compared with the model: contents by value, identity by writing a marker through each object in turn and comparing which paths show it. Shortest paths of a sub-set of states are replayed from the initial pool in a fresh VM (state reached by operations = state built directly). Non-trivial = a transition whose outcome and full pool observation agreed.",
         depth_done, ops.len()
     );
     rep.assumptions.push("memq/assq/memv/assv get keys on which eq?/eqv? are fully specified; vector-copy's end argument is excluded (pinned non-R7RS meaning); calls whose outcome R7RS leaves open (car of a non-pair, assq on a list with non-pair elements, ...) are not enabled".into());
